@@ -341,7 +341,7 @@ fn cut_points(b: &Built, seg: &Seg) -> Vec<usize> {
 }
 
 /// Send `bytes` cut at `cuts`, collecting reply bytes; returns (received bytes, connection closed).
-fn exchange(c: &mut Client, bytes: &[u8], cuts: &[usize], pause_ms: u8, expect_frames: usize) -> (Vec<u8>, bool) {
+fn exchange(c: &mut Client, bytes: &[u8], cuts: &[usize], pause_ms: u8, expect_frames: usize, read_delay_ms: u64) -> (Vec<u8>, bool) {
     let _ = c.stream.set_nonblocking(true);
     let mut received = Vec::new();
     let mut closed = false;
@@ -386,6 +386,10 @@ fn exchange(c: &mut Client, bytes: &[u8], cuts: &[usize], pause_ms: u8, expect_f
             std::thread::sleep(Duration::from_micros(30));
         }
         drain(&mut received, &mut closed, c);
+    }
+    // a slow reader: the server has to keep what it could not send and deliver it later
+    if read_delay_ms > 0 {
+        std::thread::sleep(Duration::from_millis(read_delay_ms));
     }
     // wait for the rest: until the expected number of frames decoded, silence for 1.5 s, or close
     let mut last_progress = Instant::now();
@@ -477,7 +481,9 @@ pub fn exec_case(wk: &mut Worker, c: &Case) -> CaseResult {
             return CaseResult::infra(e);
         }
     };
-    let (received, closed) = exchange(&mut conn, &b.bytes, &cuts, c.pause_ms, b.expect.len());
+    let has_large = c.items.iter().any(|i| i.class == "large-reply");
+    let read_delay = if has_large && c.pause_ms >= 1 { 400 } else { 0 };
+    let (received, closed) = exchange(&mut conn, &b.bytes, &cuts, c.pause_ms, b.expect.len(), read_delay);
     let mut labels: Vec<String> = c.items.iter().map(|i| i.class.to_string()).collect();
     labels.sort();
     labels.dedup();
@@ -488,6 +494,9 @@ pub fn exec_case(wk: &mut Worker, c: &Case) -> CaseResult {
     let hostile = c.items.iter().any(|i| i.cmds.iter().any(|cm| cm.iter().any(|a| a.windows(2).any(|w| w == b"\r\n") || a.contains(&0) || a.iter().any(|x| *x >= 0x80))));
     if hostile {
         labels.push("hostile-content".into());
+    }
+    if read_delay > 0 {
+        labels.push("slow-reader-of-large-reply".into());
     }
     let nontrivial = c.items.len() >= 3 && c.items.iter().any(|i| !i.must_err.is_empty()) && (split_frames || hostile);
     let trace = json!({"items": c.items.len(), "bytes": b.bytes.len(), "segments": cuts.len() + 1, "seg": format!("{:?}", c.seg).chars().take(60).collect::<String>(), "first_requests": b.expect.iter().take(6).map(|e| e.2.chars().take(80).collect::<String>()).collect::<Vec<_>>(), "reply_head": resp::show_bytes(&received[..received.len().min(160)])});
@@ -518,7 +527,7 @@ pub fn exec_case(wk: &mut Worker, c: &Case) -> CaseResult {
             Ok(c) => c,
             Err(e) => return CaseResult::infra(e),
         };
-        let (received2, _) = exchange(&mut conn2, &b.bytes, &[], 0, b.expect.len());
+        let (received2, _) = exchange(&mut conn2, &b.bytes, &[], 0, b.expect.len(), 0);
         if received2 != received {
             let (f1, _, _) = resp::decode_all(&received);
             let (f2, _, _) = resp::decode_all(&received2);
@@ -622,7 +631,7 @@ fn exec_violation(wk: &mut Worker, bytes: &[u8], class: &str) -> CaseResult {
         }
     };
     let n_good = bytes.windows(5).filter(|w| w == b"$3\r\nS").count();
-    let (received, closed) = exchange(&mut conn, bytes, &[], 0, n_good + 1);
+    let (received, closed) = exchange(&mut conn, bytes, &[], 0, n_good + 1, 0);
     let (frames, _, derr) = resp::decode_all(&received);
     let mut res = CaseResult { verdict: Verdict::Pass, labels: vec![format!("violation:{}", class)], nontrivial: true, excluded: vec![], trace: Some(json!({"sent": resp::show_bytes(bytes), "received": resp::show_bytes(&received[..received.len().min(200)]), "closed": closed})) };
     if derr.is_some() {
